@@ -114,12 +114,11 @@ func (i *Interceptors) Split(str string) ([]*Segment, error) {
 		if lastFlag && s[0] == startByte {
 			return nil, fmt.Errorf("两个命名参数不能连续出现：%s", str)
 		}
-		lastFlag = s[len(s)-1] == endByte
-
 		seg, err := i.NewSegment(s)
 		if err != nil {
 			return nil, err
 		}
+		lastFlag = seg.Type != String && seg.Suffix == "" // 以参数结尾，/x} 最后的 } 只是普通字符。
 
 		if seg.Type != String {
 			if names[seg.Name] > 0 {
